@@ -205,8 +205,14 @@ pub fn compare_font(w: &World, font: &[u8], m: &ModelFont, alts: &BTreeMap<(Tag4
     let p = parse_font(font).ok_or(("C18.output_opens".to_string(), "client output does not open as a font".to_string()))?;
     // expected tag set
     let mut want_tags: BTreeSet<Tag4> = BTreeSet::new();
-    for t in [HEAD, *b"maxp", *b"cmap", LOCA, GLYF] {
+    for t in [HEAD, *b"maxp", *b"cmap"] {
         want_tags.insert(t);
+    }
+    if w.carrier == 0 {
+        want_tags.insert(LOCA);
+        want_tags.insert(GLYF);
+    } else {
+        want_tags.insert(w.outline_tag());
     }
     if m.gvar.is_some() {
         want_tags.insert(GVAR);
@@ -250,6 +256,47 @@ pub fn compare_font(w: &World, font: &[u8], m: &ModelFont, alts: &BTreeMap<(Tag4
                 return Err(("C18.other_tables_unchanged".into(), format!("table {} changed although no patch touched it", tag_str(&t))));
             }
         }
+    }
+    if w.carrier != 0 {
+        // CFF / CFF2: everything before the charstrings INDEX unchanged; INDEX with the expected offSize
+        let tag = w.outline_tag();
+        let t = &p.tables[&tag];
+        let prefix = cff_prefix(w.carrier);
+        if !t.starts_with(&prefix) {
+            return Err(("C18.other_tables_unchanged".into(), format!("bytes of {} before the charstrings INDEX changed", tag_str(&tag))));
+        }
+        let rest = &t[prefix.len()..];
+        let cw = if w.carrier == 1 { 2 } else { 4 };
+        if rest.len() < cw + 1 {
+            return Err(("C18.b.offset_width".into(), "charstrings INDEX truncated".into()));
+        }
+        let count = if cw == 2 { u16::from_be_bytes([rest[0], rest[1]]) as usize } else { u32::from_be_bytes([rest[0], rest[1], rest[2], rest[3]]) as usize };
+        if count != w.n_glyphs as usize {
+            return Err(("C18.b.offset_width".into(), format!("charstrings INDEX holds {count} glyphs, expected {}", w.n_glyphs)));
+        }
+        let osz = rest[cw] as usize;
+        if osz != m.cff_off_size as usize {
+            return Err(("C18.b.offset_width".into(), format!("charstrings offSize is {osz} but the model expects {} (widen only when the data no longer fits)", m.cff_off_size)));
+        }
+        let offs_bytes = rest.get(cw + 1..cw + 1 + (count + 1) * osz).ok_or(("C18.b.offsets_ascending".to_string(), "charstrings offsets truncated".to_string()))?;
+        let mut offs: Vec<u32> = Vec::new();
+        for c in offs_bytes.chunks_exact(osz) {
+            let mut v = 0u32;
+            for b in c {
+                v = (v << 8) | *b as u32;
+            }
+            if v == 0 {
+                return Err(("C18.b.offsets_ascending".into(), "charstrings offset 0 (offsets carry a bias of 1)".into()));
+            }
+            offs.push(v - 1);
+        }
+        let data = &rest[cw + 1 + (count + 1) * osz..];
+        if offs.last().copied().unwrap_or(0) as usize != data.len() {
+            return Err(("C18.b.offsets_ascending".into(), format!("last charstrings offset {} but {} bytes of data", offs.last().copied().unwrap_or(0), data.len())));
+        }
+        let glyphs = per_glyph(&offs, data).map_err(|e| ("C18.b.offsets_ascending".to_string(), format!("charstrings: {e}")))?;
+        check_glyphs(&tag, &glyphs, &m.glyf, alts, 0)?;
+        return Ok(());
     }
     // glyf / loca
     let long = w.loca_long;
@@ -865,8 +912,14 @@ impl Sim<'_> {
                                         Ok((n, alts)) => {
                                             // short offsets that cannot hold the data: glyf must fail, gvar must widen
                                             let mut n = n;
-                                            if !w.loca_long && padded_total(&n.glyf, true) > 0xFFFF * 2 && applied.iter().any(|c| patch_touches(w, &model, c, &GLYF)) {
+                                            if w.carrier == 0 && !w.loca_long && padded_total(&n.glyf, true) > 0xFFFF * 2 && applied.iter().any(|c| patch_touches(w, &model, c, &GLYF)) {
                                                 return Err(viol("C18", "C18.expected_error", "glyf data beyond the short-offset limit was accepted".into()));
+                                            }
+                                            if w.carrier != 0 && applied.iter().any(|c| patch_touches(w, &model, c, &w.outline_tag())) {
+                                                let total = padded_total(&n.glyf, false);
+                                                while cff_max_size(n.cff_off_size) < total && n.cff_off_size < 4 {
+                                                    n.cff_off_size += 1;
+                                                }
                                             }
                                             if let Some(gv) = &n.gvar {
                                                 if !n.gvar_long && padded_total(gv, true) > 0xFFFF * 2 && applied.iter().any(|c| patch_touches(w, &model, c, &GVAR)) {
@@ -899,7 +952,7 @@ impl Sim<'_> {
                         let Some((next_model, alts)) = accepted else {
                             return Err(first_err.unwrap());
                         };
-                        if next_model.gvar_long && !model.gvar_long {
+                        if (next_model.gvar_long && !model.gvar_long) || next_model.cff_off_size > model.cff_off_size {
                             self.stats.bump("probe.C18.offset_width_widened");
                         }
                         // resolve alternatives to what the client actually chose, so that later rounds compare exactly
@@ -1015,7 +1068,7 @@ impl Sim<'_> {
         match w.model_apply_glyph(model, &gl) {
             Err(e) => Some(e),
             Ok((n, _)) => {
-                if !w.loca_long && padded_total(&n.glyf, true) > 0xFFFF * 2 && gl.iter().any(|c| patch_touches(w, model, c, &GLYF)) {
+                if w.carrier == 0 && !w.loca_long && padded_total(&n.glyf, true) > 0xFFFF * 2 && gl.iter().any(|c| patch_touches(w, model, c, &GLYF)) {
                     return Some("glyf exceeds short offsets and loca cannot widen".into());
                 }
                 None
@@ -1037,6 +1090,9 @@ fn patch_touches(w: &World, m: &ModelFont, c: &Candidate, tag: &Tag4) -> bool {
 }
 
 fn resolve_alts(w: &World, font: &[u8], m: &mut ModelFont, alts: &BTreeMap<(Tag4, u32), Vec<Vec<u8>>>) {
+    if w.carrier != 0 {
+        return;
+    }
     let Some(p) = parse_font(font) else { return };
     let offs = loca_offsets(&p.tables[&LOCA], w.loca_long);
     let glyphs = per_glyph(&offs, &p.tables[&GLYF]).unwrap_or_default();
